@@ -43,7 +43,8 @@ REQUIRED = ["cases", "emitted_frames_compared", "rewrites_checked",
             "released_through_a_buffer_id", "released_by_a_flow_mod",
             "udp_checksums_that_come_out_as_zero_after_a_rewrite",
             "ports_plugged_in_while_running",
-            "ports_plugged_in_administratively_down"]
+            "ports_plugged_in_administratively_down",
+            "frames_handed_over_as_objects_assembled_from_fields"]
 TIMEOUT = {"quick": 900, "thorough": 7200}
 
 NPORTS = 5
@@ -231,6 +232,35 @@ def expected_for (raw, actions, in_port, cfg, via, table_flow, stay):
 
 BUFFERED = ("buffered_miss", "buffered_action")
 
+
+def assembled (raw):
+  """The frame as a packet object put together from header fields (what a
+  host model or a component builds before it hands a frame to the switch)
+  rather than parsed from bytes; None where that does not give the same
+  octets back."""
+  import pox.lib.packet as pkt
+  src = pkt.ethernet(raw)
+  def build (x):
+    if x is None or isinstance(x, (bytes, bytearray)): return x
+    y = type(x)()
+    for k, v in vars(x).items():
+      if k in ("prev", "next", "parsed", "raw"): continue
+      try: setattr(y, k, v)
+      except Exception: return None
+    nxt = build(x.next)
+    if x.next is not None and nxt is None: return None
+    y.next = nxt
+    if not isinstance(nxt, (bytes, bytearray)) and nxt is not None: nxt.prev = y
+    return y
+  try:
+    p = build(src)
+    if p is None or p.pack() != raw: return None
+    # (packing fills in lengths and checksums; what is handed over is the
+    #  object as its maker left it, so build it once more)
+    return build(src)
+  except Exception:
+    return None
+
 def run_case (case, rep):
   # (a switch with packet buffers for the deliveries that go through one)
   rk = "rb" if case["via"] in BUFFERED else "r"
@@ -307,7 +337,11 @@ def run_case (case, rep):
         if pre:
           fire("flow_mod rejected", pre[:40].hex()); return True
       accepted = OA.accepts(cfg[in_port], raw)
-      if case.get("inject_obj"):
+      obj = assembled(raw) if case.get("inject_obj") == "assembled" else None
+      if obj is not None:
+        rep.count("frames_handed_over_as_objects_assembled_from_fields")
+        sw.switch.rx_packet(obj, in_port)
+      elif case.get("inject_obj"):
         # (the frame handed over as a parsed object only)
         import pox.lib.packet as pkt
         sw.switch.rx_packet(pkt.ethernet(raw), in_port)
@@ -380,7 +414,12 @@ def run_case (case, rep):
       if pre:
         fire("flow_mod rejected", pre[:40].hex()); return True
       accepted = OA.accepts(cfg[in_port], raw)
-      sw.inject(in_port, raw)
+      obj = assembled(raw) if case.get("inject_obj") == "assembled" else None
+      if obj is not None:
+        rep.count("frames_handed_over_as_objects_assembled_from_fields")
+        sw.switch.rx_packet(obj, in_port)
+      else:
+        sw.inject(in_port, raw)
       if accepted:
         rep.count("flow_hits")
         # (the recorded finding about padding shows in the byte counter too:
@@ -639,8 +678,9 @@ def gen_case (rng):
   elif r < 0.03: case["plug"] = "add_down"
   elif r < 0.05: case["plug"] = "del"
   if via in ("miss",) + BUFFERED:
-    if rng.random() < 0.3: case["inject_obj"] = True
+    if rng.random() < 0.3: case["inject_obj"] = rng.choice([True, "assembled"])
     if via in BUFFERED and rng.random() < 0.3: case["release"] = "flow_mod"
+  if via == "flow" and rng.random() < 0.2: case["inject_obj"] = "assembled"
   if allow_table and rng.random() < 0.5:
     # (what the entry does to the frame it is handed is its own business: the
     #  rest of the packet_out's list goes on with the frame as it was)
